@@ -397,6 +397,8 @@ impl FileManager {
                 schema_path.display()
             )
         })?;
+        #[cfg(kahflane_turdb_verif)]
+        crate::verif_hooks::io_event("fm_mkdir", &schema_path.to_string_lossy(), 0, 0);
 
         Ok(())
     }
@@ -462,11 +464,15 @@ impl FileManager {
             fs::remove_file(&index_path).wrap_err_with(|| {
                 format!("failed to remove index file '{}'", index_path.display())
             })?;
+            #[cfg(kahflane_turdb_verif)]
+            crate::verif_hooks::io_event("fm_remove", &index_path.to_string_lossy(), 0, 0);
         }
 
         let table_path = self.table_file_path(schema, table);
         fs::remove_file(&table_path)
             .wrap_err_with(|| format!("failed to remove table file '{}'", table_path.display()))?;
+        #[cfg(kahflane_turdb_verif)]
+        crate::verif_hooks::io_event("fm_remove", &table_path.to_string_lossy(), 0, 0);
 
         Ok(())
     }
@@ -496,6 +502,8 @@ impl FileManager {
                 new_table_path.display()
             )
         })?;
+        #[cfg(kahflane_turdb_verif)]
+        crate::verif_hooks::io_event("fm_rename", &format!("{}|{}", old_table_path.display(), new_table_path.display()), 0, 0);
 
         for index_name in self.list_indexes(schema, old_name).unwrap_or_default() {
             let old_index_path = self.index_file_path(schema, old_name, &index_name);
@@ -508,6 +516,8 @@ impl FileManager {
                         new_index_path.display()
                     )
                 })?;
+                #[cfg(kahflane_turdb_verif)]
+                crate::verif_hooks::io_event("fm_rename", &format!("{}|{}", old_index_path.display(), new_index_path.display()), 0, 0);
             }
         }
 
@@ -589,6 +599,8 @@ impl FileManager {
         fs::remove_file(&index_path).wrap_err_with(|| {
             format!("failed to remove index file '{}'", index_path.display())
         })?;
+        #[cfg(kahflane_turdb_verif)]
+        crate::verif_hooks::io_event("fm_remove", &index_path.to_string_lossy(), 0, 0);
 
         Ok(())
     }
